@@ -1218,6 +1218,13 @@ func compileExpr(context *funcContext, reg int, expr ast.Expr, ec *expcontext) i
 			raiseCompileError(context, sline(ex), "cannot use '...' outside a vararg function")
 		}
 		context.Proto.IsVarArg &= ^VarArgNeedsArg
+		if sreg < reg && ec.varargopt == 0 {
+			// OP_VARARG cuts the registry off after its last result, so it must not store
+			// into a local below live temporaries: go through a temporary
+			code.AddABC(OP_VARARG, reg, 2, 0, sline(ex))
+			code.AddABC(OP_MOVE, sreg, reg, 0, sline(ex))
+			return 0
+		}
 		code.AddABC(OP_VARARG, sreg, 2+ec.varargopt, 0, sline(ex))
 		if context.RegTop() > (sreg+2+ec.varargopt) || ec.varargopt < -1 {
 			return 0
